@@ -290,12 +290,12 @@ OnWalletTx(e) ==
 TraceInit ==
     /\ l = 1 /\ bad = {} /\ B = <<>> /\ U = <<>> /\ pool = <<>>
     /\ obs = [tip |-> "", tiph |-> 0, utxo |-> {}]
-    /\ env = [g |-> 100, issued |-> LimbZero, nodekey |-> "", reorgs |-> 0, detached |-> FALSE, nd |-> NoSample, wc |-> {}, tainted |-> FALSE, rtaint |-> FALSE]
+    /\ env = [g |-> 100, issued |-> LimbZero, nodekey |-> "", reorgs |-> 0, detached |-> FALSE, nd |-> NoSample, wc |-> {}, tainted |-> FALSE, rtaint |-> FALSE, maxtip |-> 0]
 
 OnReset(e) ==
     /\ B' = <<>> /\ U' = <<>> /\ pool' = <<>>
     /\ obs' = [tip |-> "", tiph |-> 0, utxo |-> {}]
-    /\ env' = [g |-> e.g, issued |-> T3(e.issued), nodekey |-> e.node_key, reorgs |-> 0, detached |-> FALSE, nd |-> NoSample, wc |-> {}, tainted |-> FALSE, rtaint |-> FALSE]
+    /\ env' = [g |-> e.g, issued |-> T3(e.issued), nodekey |-> e.node_key, reorgs |-> 0, detached |-> FALSE, nd |-> NoSample, wc |-> {}, tainted |-> FALSE, rtaint |-> FALSE, maxtip |-> 0]
     /\ bad' = bad
 
 OnBlock(e) ==
@@ -318,7 +318,8 @@ OnBlock(e) ==
        /\ pool' = P2
        /\ env' = [env EXCEPT !.reorgs = IF isreorg THEN @ + 1 ELSE @,
                               !.detached = @ \/ (T.tip \in DOMAIN BB /\ ~LcMatches(e.st.lc, PathTo(BB, T.tip), T.tiph, env.g)),
-                              !.tainted = @ \/ TaintNow(e, BB, UU)]
+                              !.tainted = @ \/ TaintNow(e, BB, UU),
+                              !.maxtip = IF T.tiph > @ THEN T.tiph ELSE @]
        /\ bad' = bad \cup BlockChecks(e, BB, UU)
                      \cup (IF IsPanic(e.res) THEN {} ELSE PoolChecks(e, e.st, P2, T.utxo, T.tiph))
                      \cup (IF IsPanic(e.res) THEN {} ELSE WalletChecksR(e, e.st, T.utxo, T.tiph, env.wc, BB, isreorg))
@@ -357,7 +358,10 @@ OnRestart(e) ==
     /\ bad' = bad
          \cup (IF IsPanic(e.res) THEN {Bad(e, "C12", IF e.competing > 0 THEN "restart-panicked-with-competing-branch-on-disk" ELSE "restart-panicked")} ELSE
                (IF b.tip # a.tip
-                THEN {Bad(e, "C12", IF b.tiph > a.tiph THEN "restart-raised-the-tip"   \* the running node had not been on its best chain
+                \* a higher tip after the restart: the order dependence of the fork choice again (a longer branch with a
+                \* lower cumulative burn fee was not adopted while running, the replay order adopts it) - unless the running
+                \* node had been higher before, i.e. had lost blocks it once held
+                THEN {Bad(e, "C12", IF b.tiph > a.tiph /\ ~(e.competing > 0 /\ a.tiph >= env.maxtip) THEN "restart-raised-the-tip"
                                     ELSE IF e.competing > 0 THEN "restart-changed-tip-with-competing-branch-on-disk"
                                     ELSE "restart-changed-tip")}
                 ELSE {})
@@ -377,7 +381,8 @@ OnRestart(e) ==
     /\ obs' = IF IsPanic(e.res) THEN obs ELSE b
     /\ pool' = [id \in (DOMAIN pool \cap Rng(e.st.pool)) |-> pool[id]]     \* the pool is not persisted
     /\ env' = [env EXCEPT !.wc = {},                                     \* nor are the wallet's commitments
-                           !.rtaint = @ \/ (~IsPanic(e.res) /\ b.tip # a.tip /\ e.competing > 0)]
+                           !.rtaint = @ \/ (~IsPanic(e.res) /\ b.tip # a.tip /\ e.competing > 0),
+                           !.maxtip = IF ~IsPanic(e.res) /\ b.tiph > @ THEN b.tiph ELSE @]
     /\ UNCHANGED <<B, U>>
 
 (* a crash after any prefix of the storage operations, last write complete / absent / torn: the node comes up, on a *)
